@@ -257,9 +257,13 @@ sanitize_registry = {
             replace=r'\g<ws>\g<pre>\g<post>', postprocess=reinsert_convert_endian),
 
         # Replace NEWUNIT argument in OPEN calls
+        # Note: the arguments before it are skipped one character or one character literal at a time, so
+        #       that the same text inside a literal is not taken for the argument, and the value extends over
+        #       parenthesised subscripts (``NEWUNIT=units(i, j)``) up to the next separator
         'OPEN_NEWUNIT': PPRule(
-            match=re.compile((r'(?P<ws>^\s*)(?P<open>OPEN\s*\()(?P<args1>.*?)(?P<delim>,)?'
-                              r'(?P<newunit_key>,?\s*NEWUNIT=)(?P<newunit_val>.*?(?=,|\)|&))'
+            match=re.compile((r'(?P<ws>^\s*)(?P<open>OPEN\s*\()(?P<args1>(?:[^\'"]|\'[^\']*\'|"[^"]*")*?)(?P<delim>,)?'
+                              r'(?P<newunit_key>,?\s*NEWUNIT=)'
+                              r'(?P<newunit_val>(?:[^,()&]|\((?:[^()]|\([^()]*\))*\))*(?=,|\)|&))'
                               r'(?P<args2>.*?$)'), re.I),
             replace=lambda m: f'{m["ws"]}{m["open"]}{m["newunit_val"]}{m["delim"] or ""}' +
                               f'{m["args1"]}{m["args2"]}',
